@@ -4,6 +4,7 @@ package c08
 
 import (
 	"bytes"
+	gocontext "context"
 	"encoding/json"
 	"fmt"
 	"net"
@@ -56,6 +57,15 @@ func (f *wireConn) SetWriteDeadline(time.Time) error { return nil }
 
 var secret = [32]byte{7, 7, 7, 1, 2, 3}
 
+// keepAlive as a writer's only "length" makes that thread a hap.KeepAlive round instead of plain writes.
+const keepAlive = -2
+
+func keepAlivePayload() []byte {
+	var b bytes.Buffer
+	hap.NewNotification(new(bytes.Buffer)).Write(&b)
+	return hap.FixProtocolSpecifier(b.Bytes())
+}
+
 // Case is one scenario + schedule.
 type Case struct {
 	Writers  [][]int `json:"writers"`  // per writer goroutine: payload lengths written in order
@@ -76,8 +86,28 @@ func payload(w, i, n int) []byte {
 }
 
 // setup builds a real hap.Connection with a real secure session over conn.
+// onceContext lets a KeepAlive loop send exactly one round: the first ActiveConnections call cancels the loop's
+// context, later calls see no connections.
+type onceContext struct {
+	hap.Context
+	cancel func()
+	used   bool
+}
+
+func (o *onceContext) ActiveConnections() []net.Conn {
+	if o.used {
+		return nil
+	}
+	o.used = true
+	o.cancel()
+	return o.Context.ActiveConnections()
+}
+
+var lastCtx hap.Context
+
 func setup(conn net.Conn) *hap.Connection {
 	ctx := hap.NewContextForSecuredDevice(nil)
+	lastCtx = ctx
 	c := hap.NewConnection(conn, ctx)
 	cs, err := hccrypto.NewSecureSessionFromSharedKey(secret)
 	if err != nil {
@@ -167,6 +197,11 @@ func execute(c *fw.Ctx, writers [][]int, prefix []int, bound int) []sched.PointR
 		}
 		return true
 	}
+	vsync.HookActive = func() bool { return S.Active() }
+	vsync.HookCondWait = func(cd *vsync.Cond, w *vsync.CondWaiter) bool {
+		S.Point(func() bool { return w.Woken })
+		return true
+	}
 	vsync.HookRUnlock = func(m *vsync.RWMutex, write bool) bool {
 		if !S.Active() {
 			return false
@@ -187,8 +222,18 @@ func execute(c *fw.Ctx, writers [][]int, prefix []int, bound int) []sched.PointR
 	}
 	var want [][]byte
 	var bodies []func()
+	hctx := lastCtx
 	for w, lens := range writers {
 		w, lens := w, lens
+		if len(lens) == 1 && lens[0] == keepAlive {
+			// a keep-alive round sent by hap.KeepAlive itself (one round, see onceContext)
+			want = append(want, keepAlivePayload())
+			bodies = append(bodies, func() {
+				kctx, cancel := gocontext.WithCancel(gocontext.Background())
+				hap.NewKeepAlive(time.Nanosecond, &onceContext{Context: hctx, cancel: cancel}).Start(kctx)
+			})
+			continue
+		}
 		for i, n := range lens {
 			want = append(want, payload(w, i, n))
 		}
@@ -200,6 +245,7 @@ func execute(c *fw.Ctx, writers [][]int, prefix []int, bound int) []sched.PointR
 	}
 	out := S.Run(prefix, bodies)
 	vsync.HookLock, vsync.HookUnlock, vsync.HookRLock, vsync.HookRUnlock = nil, nil, nil, nil
+	vsync.HookCondWait, vsync.HookActive = nil, nil
 	c.Eval(1)
 	c.State(1)
 	c.Trace(1)
@@ -233,6 +279,9 @@ func scenarios(thorough bool) []scenario {
 		{[][]int{{1500}, {2100}}, -1},
 		{[][]int{{300, 150}, {1500, 40}}, 2},
 		{[][]int{{300}, {150}, {1500}}, 2},
+		{[][]int{{keepAlive}, {1500}}, -1},
+		{[][]int{{300}, {keepAlive}, {1500}}, 2},
+		{[][]int{{10}, {20}, {1500}}, -1},
 	}
 	if thorough {
 		s = append(s,
@@ -371,7 +420,7 @@ func init() {
 	fw.Register(&fw.Check{
 		ID:    "C08",
 		Level: "model_checking",
-		Rule:  "stateless exploration of goroutine interleavings under a cooperative scheduler with iterative preemption bounding: 2–4 writer goroutines × 1–2 Connection.Write calls with one- and two-frame payloads on a real hap.Connection with a real secure session; scheduling points = every Lock of a sync.Mutex/RWMutex in packages hap and crypto (import rewritten to a shim through go build -overlay) and every socket Write; per schedule the captured wire must decrypt front to back with counters in arrival order (reference AEAD) and be a sequence of whole payloads. 2-writer scenarios unbounded, larger ones preemption bound 2 (thorough: unbounded / 3). Plus a free-running pass of the same bodies in a -race build. distinct_nontrivial = distinct (scenario, wire record order) outcomes — more than one per scenario means writers really collided",
+		Rule:  "stateless exploration of goroutine interleavings under a cooperative scheduler with iterative preemption bounding: 2–5 writer goroutines × 1–3 Connection.Write calls with one- and two-frame payloads, and keep-alive rounds sent by hap.KeepAlive itself, on a real hap.Connection with a real secure session; scheduling points = every Lock of a sync.Mutex/RWMutex and every Wait of a sync.Cond in packages hap and crypto (import rewritten to a shim through go build -overlay) and every socket Write; per schedule the captured wire must decrypt front to back with counters in arrival order (reference AEAD) and be a sequence of whole payloads. 2-writer scenarios unbounded, larger ones preemption bound 2 (thorough: unbounded / 3). Plus a free-running pass of the same bodies in a -race build. distinct_nontrivial = distinct (scenario, wire record order) outcomes — more than one per scenario means writers really collided",
 		Shards: func(t string) int {
 			if t == "thorough" {
 				return 16
